@@ -43,3 +43,66 @@ def smin(a, b):
 def pos(a):
     """max(0, a)"""
     return smax(a, 0)
+
+
+def _bvar(x):
+    """z3 Bool term of a python bool / CrossHair SymbolicBool (caller holds NoTracing)."""
+    import z3
+    from crosshair.libimpl.builtinslib import SymbolicBool
+    if isinstance(x, SymbolicBool):
+        return x.var
+    if isinstance(x, bool):
+        return z3.BoolVal(x)
+    return None
+
+
+def _bool_op(op, items):
+    """Branch-free boolean connective over python bools and symbolic bools."""
+    if _sym():
+        import z3
+        from crosshair.tracers import NoTracing
+        from crosshair.libimpl.builtinslib import SymbolicBool
+        with NoTracing():
+            if any(isinstance(i, SymbolicBool) for i in items):
+                terms = [_bvar(i) for i in items]
+                if all(t is not None for t in terms):
+                    if op == 'and':
+                        return SymbolicBool(z3.And(*terms))
+                    if op == 'or':
+                        return SymbolicBool(z3.Or(*terms))
+                    if op == 'not':
+                        return SymbolicBool(z3.Not(terms[0]))
+                    if op == 'eq':
+                        return SymbolicBool(terms[0] == terms[1])
+    if op == 'and':
+        return all(bool(i) for i in items)
+    if op == 'or':
+        return any(bool(i) for i in items)
+    if op == 'not':
+        return not items[0]
+    return bool(items[0]) == bool(items[1])
+
+
+def b_and(*items):
+    return _bool_op('and', list(items))
+
+
+def b_or(*items):
+    return _bool_op('or', list(items))
+
+
+def b_not(item):
+    return _bool_op('not', [item])
+
+
+def b_eq(a, b):
+    return _bool_op('eq', [a, b])
+
+
+def sgn_is(x, s):
+    """sign(x) == s for s in -1, 0, +1 without forking (x a python/symbolic int)."""
+    if s > 0:
+        return x > 0
+    if s < 0:
+        return x < 0
+    return x == 0
